@@ -369,7 +369,6 @@ func polyOfPlain(t *pt) spoly {
 	return spAtom(strings.ReplaceAll(t.String(), "*", "x"))
 }
 
-
 func protoVerifyHashed(r *Report, p *Prog) {
 	if ps := newProtoSpec(r, p, "sm2.VerifyHashed"); ps != nil {
 		ps.specVerify(pParam("e"), pParam("pubx"), pParam("puby"), pParam("r"), pParam("s"))
@@ -409,7 +408,6 @@ func trunc(s string, n int) string {
 	}
 	return s
 }
-
 
 // ---------- keys ----------
 
@@ -585,7 +583,6 @@ func (ps *protoSpec) specZA(id, pubx, puby *pt) {
 		"ZA-HASH-INPUT": "ZA = SM3(ENTL || ID || curve parameter block || xA || yA) with ENTL the untruncated 16-bit bit length",
 	})
 }
-
 
 func protoKeys(r *Report, p *Prog) {
 	if ps := newProtoSpec(r, p, "sm2.GenerateKey"); ps != nil {
